@@ -1049,16 +1049,17 @@ class MultiGrid(_PropertyGrid):
             agent.pos = pos
             if self._empties_built:
                 self._empties.discard(pos)
-                self._empty_mask[agent.pos] = True
+            self._empty_mask[pos] = False
 
     def remove_agent(self, agent: Agent) -> None:
         """Remove the agent from the given location and set its pos attribute to None."""
         pos = agent.pos
         x, y = pos
         self._grid[x][y].remove(agent)
-        if self._empties_built and self.is_cell_empty(pos):
-            self._empties.add(pos)
-            self._empty_mask[agent.pos] = False
+        if self.is_cell_empty(pos):
+            if self._empties_built:
+                self._empties.add(pos)
+            self._empty_mask[pos] = True
         agent.pos = None
 
     def iter_neighbors(  # noqa: D102
